@@ -56,6 +56,8 @@ class C15(PropBase):
         import string
         others = [c for c in string.ascii_letters + string.digits if c not in "saAvVNSWEdDcC"]
         orders += others + ["".join(rng.sample(others, 3)) for _ in range(6)] + ["nwe", "nsew"]
+        # -o given several times (a+n stands for -o a -o n): the letters of all occurrences count, in order
+        orders += ["a+n", "s+w", "sA+x", "a+s", "D+v", "x+c", "N+S+a", "A+"]
         ntab = 3 if tier == "quick" else 12
         for ti in range(ntab):
             addrs, pre, body = self.table(rng)
